@@ -113,6 +113,29 @@ func main() {
 			os.Exit(2)
 		}
 		scanResets(p)
+	case "scansums": // exploratory: prefix-sum accumulators shared by several loops
+		p, err := eng.Load(eng.LoadOpts{})
+		if err != nil {
+			fmt.Println(err)
+			os.Exit(2)
+		}
+		for _, fs := range p.AllFuncs() {
+			if fs.Decl.Body == nil {
+				continue
+			}
+			for _, ps := range eng.PrefixSums(fs.Pkg.TypesInfo, fs.Decl.Body) {
+				fmt.Printf("%s %s var %s loops=%d resets=%v\n", p.Pos(fs.Decl.Pos()), eng.FuncName(fs.Obj), ps.Var.Name(), len(ps.Loops), ps.ResetBefore)
+			}
+		}
+	case "scanlocks": // exploratory: functions that may return with a mutex field still locked
+		p, err := eng.Load(eng.LoadOpts{})
+		if err != nil {
+			fmt.Println(err)
+			os.Exit(2)
+		}
+		for _, l := range p.LockLeaks() {
+			fmt.Println(l)
+		}
 	case "cfg":
 		p, err := eng.Load(eng.LoadOpts{})
 		if err != nil {
